@@ -46,7 +46,14 @@ def run(chk: Check) -> None:
             k += 1
     chk.floor("R09.3", "loader registrations", k, 7)
     _lazy_auxdata(chk)
+    from .lookups import truthiness_safe
+    truthiness_safe(chk, "R09.1")
     codec_state(chk, "R09.5", ("serialization", "auxdata", "offset"))
+    from .c07 import run as _c07
+    sub = chk.sub()
+    _c07(sub)
+    chk.adopt(sub, lambda o: "get_by_uuid" in o.construct or o.rule == "R07.4", "R09.4")
+    _no_decode_during_load(chk)
 
 
 def _lazy_auxdata(chk: Check) -> None:
@@ -101,3 +108,35 @@ def _lazy_auxdata(chk: Check) -> None:
             and stored.get("type_name") == ("type_name",)
         chk.ob("R09.4", "_LazyDataContainer.__init__:stores-arguments", ok, init.loc(),
                "the container must keep raw_data, type_name and get_by_uuid as given (%s)" % stored, 2)
+
+
+def _no_decode_during_load(chk: Check) -> None:
+    """AuxData must stay undecoded while the IR is being loaded: a table decoded before all
+    modules exist resolves references to later nodes as plain UUIDs for good."""
+    repo = chk.repo
+    from .c01 import _is_reader
+    n = 0
+    for f in repo.all_functions():
+        in_aux = f.cls is not None and f.cls.name in ("AuxData", "AuxDataContainer") and \
+            f.name in ("_from_protobuf", "_read_protobuf_aux_data")
+        if not (_is_reader(f) or in_aux):
+            continue
+        n += 1
+        bad = []
+        for x in walk_no_nested(f.node):
+            if isinstance(x, ast.Call) and isinstance(x.func, ast.Attribute) and \
+                    x.func.attr in ("get_data",) :
+                bad.append(x)
+            if isinstance(x, ast.Call) and isinstance(x.func, ast.Attribute) and x.func.attr == "decode" \
+                    and "serializer" in unparse(x.func.value):
+                bad.append(x)
+            if isinstance(x, ast.Attribute) and x.attr == "data" and isinstance(x.ctx, ast.Load) and in_aux:
+                # <AuxData>.data (the decoding property) - message fields named data are read
+                # through the proto parameter, which is typed by the schema analysis
+                base = attr_path(x.value)
+                if base and base[0] not in f.param_names():
+                    bad.append(x)
+        chk.ob("R09.4", "%s:no-decode-during-load" % f.qualname, not bad, f.loc(bad[0]) if bad else f.loc(),
+               "%s decodes AuxData while the IR is still being loaded (%s): entries naming nodes that "
+               "are decoded later stay plain UUIDs" % (f.qualname, unparse(bad[0])[:50] if bad else ""), 1)
+    chk.extra["load_path_functions"] = n
